@@ -245,7 +245,14 @@ func (state *RuntimeState) VIPPollCheckHandler(w http.ResponseWriter, r *http.Re
 		state.writeFailureResponse(w, r, http.StatusPreconditionFailed, "Error parsing form")
 		return
 	}
-	//TODO: check username
+	// The transaction cookie is not authenticated: the push MUST have been
+	// started for (and thus approved by) the user of this session.
+	if pushTransaction.Username != authData.Username {
+		logger.Printf("VIPPollCheckHandler: push transaction user=%s does not match authuser=%s",
+			pushTransaction.Username, authData.Username)
+		state.writeFailureResponse(w, r, http.StatusPreconditionFailed, "Push transaction user mismatch")
+		return
+	}
 	valid, err := state.Config.SymantecVIP.Client.VipPushHasBeenApproved(pushTransaction.TransactionID)
 	if err != nil {
 		logger.Println(err)
